@@ -179,7 +179,7 @@ fn worker_random(args: &[String]) -> i32 {
         let errors = profile == "c10";
         let tree0 = {
             let mut g = randgen::Gen { rng: &mut rng, errors };
-            g.cmd(sz, randgen::Ctx { ld: 0, infn: false, nocnt: false, rank: 0 })
+            g.program(sz)
         };
         let mut toks = vec![];
         ast::flatten(&tree0, &mut toks);
